@@ -2,33 +2,9 @@
    translated (Gen/Src.v) compute RFC 2865 s5.2 (Spec/C04.v with H = MD5), for
    all plaintexts, secrets and authenticators. *)
 From Coq Require Import String.
-From Radius Require Import Base.Bytes Base.Res Base.GoLite Gen.Src Crypto.MD5 Proofs.SrcBase Proofs.SrcCtx Model.SrcRun Spec.C04.
+From Radius Require Import Base.Bytes Base.Res Base.GoLite Gen.Src Crypto.MD5 Proofs.SrcBase Proofs.SrcCtx Model.SrcRun Spec.C04 Proofs.SrcXor.
 Open Scope list_scope.
 Open Scope nat_scope.
-
-Lemma lxor_Z a b : byte_ok a -> byte_ok b ->
-  Z.lxor (Z.of_N a) (Z.of_N b) = Z.of_N (N.lxor a b).
-Proof. intros _ _. destruct a, b; reflexivity. Qed.
-
-Lemma md5_ok l : bytes_ok (md5 l).
-Proof. unfold bytes_ok, byte_ok. apply md5_bytes. Qed.
-
-Lemma nth_skipn_cons (l : bytes) i : i < length l -> skipn i l = nth i l 0%N :: skipn (S i) l.
-Proof.
-  revert i; induction l as [|x l IH]; intros [|i] H; cbn [length] in H; try lia; [reflexivity|].
-  cbn [skipn nth]. apply IH. lia.
-Qed.
-
-Lemma set_nth_split (l : bytes) i x : i < length l -> set_nth i x l = firstn i l ++ x :: skipn (S i) l.
-Proof. reflexivity. Qed.
-
-Lemma skipn_skipn_pw {A} (l : list A) a b : skipn a (skipn b l) = skipn (b + a) l.
-Proof.
-  revert l; induction b as [|b IH]; intros l; [reflexivity|]. destruct l as [|x l]; [destruct a; reflexivity|]. cbn [skipn Nat.add]. apply IH.
-Qed.
-
-Ltac fold_for name :=
-  match goal with |- context[SFor ?c ?p ?b] => change (SFor c p b) with name end.
 
 Arguments up_blocks : simpl never.
 Arguments rfc_up_encrypt : simpl never.
